@@ -53,7 +53,7 @@ Definition run_old (v : val) : val :=
 
 (* ---- the content of the audit record (C06/Record.v)
    mode 5 (a history of requests in one server process): [5 [req ...]] with
-     req = [key sigtype hash filename remote user no_ts section leaf pgp needs_x509 needs_pgp amqp_conf file_conf host kind now size]
+     req = [key sigtype hash filename remote user no_ts section leaf pgp needs_x509 needs_pgp amqp_conf file_conf host kind now size sign_ok]
      user = [0 name dn] (certificate) ; leaf = [] or [[raw subject issuer spki tbs]] ; pgp = [] or [[fingerprint keyid name]]
      kind: 0 bare blob, 1 binary patch, 2 PKCS#7
    output per request: [answered file_records amqp_records] ; a record is the list of its present attributes [key term]
@@ -91,7 +91,7 @@ Definition req_of (v : val) : request :=
   let kind := if z 15%nat =? 1 then KBinPatch else if z 15%nat =? 2 then KPkcs7 None else KPlain in
   mkRequest (b 0%nat) (b 1%nat) (z 2%nat) (b 3%nat) (b 4%nat) (UCert (vb (vnth 1 u)) (vb (vnth 2 u))) (t 6%nat)
         true (b 7%nat) leaf pgp false [] (t 10%nat) (t 11%nat) false false false (t 12%nat) (t 13%nat) [] [] false
-        (z 16%nat) (b 14%nat) true true kind [] (z 17%nat) true true false false.
+        (z 16%nat) (b 14%nat) true (t 18%nat) kind [] (z 17%nat) true true false false.
 Definition run5 (v : val) : val :=
   VL (map (fun o : outcome => VL [of_bool (match responded o with [] => false | _ => true end);
                                   VL (map record_val (file_records o)); VL (map record_val (amqp_records o));
